@@ -81,10 +81,24 @@ theorem prefix_cons_cases {α : Type} {p : List α} {a : α} {l : List α} (h : 
 
 /-! ### the phases of one save -/
 
+theorem failedWrite_local (tmp : P) (part : Bytes) (after : List (Bytes × Bool)) (cl : Bool) :
+    ∀ e ∈ failedWrite tmp part after cl, LocalTo tmp e := by
+  intro e he
+  simp only [failedWrite, List.mem_cons, List.mem_append, List.mem_map, List.not_mem_nil, or_false] at he
+  rcases he with rfl | ⟨c, _, rfl⟩ | rfl | rfl <;> simp [LocalTo, badEv, okEv, rmEv]
+
+theorem failedWrite_final (tmp : P) (part : Bytes) (after : List (Bytes × Bool)) (fs : FS P) :
+    applyEvs fs (failedWrite tmp part after false) tmp = none := by
+  have : failedWrite tmp part after false =
+      (badEv (.write tmp part) :: (after.map (fun c => (⟨.write tmp c.1, c.2⟩ : Ev P)) ++ [okEv (.close tmp)])) ++
+        [okEv (.remove tmp)] := by simp [failedWrite, rmEv, okEv]
+  rw [this, applyEvs_append]
+  simp [applyEv, okEv, applyOp]
+
 /-- What the target may hold while / after the phases following the `open` run: `b` is what the
 temporary file holds so far. -/
-theorem tailRun_prefix {tgt tmp : P} (htt : tgt ≠ tmp) (k : Option Nat) (fs : FS P) (b : Bytes)
-    (hb : fs tmp = some b) (p : List (Ev P)) (hp : p <+: (tailRun tgt tmp k).evs) :
+theorem tailRun_prefix {tgt tmp : P} (htt : tgt ≠ tmp) (cl : Bool) (k : Option Nat) (fs : FS P) (b : Bytes)
+    (hb : fs tmp = some b) (p : List (Ev P)) (hp : p <+: (tailRun tgt tmp cl k).evs) :
     applyEvs fs p tgt = fs tgt ∨ applyEvs fs p tgt = some b := by
   have hclose : ∀ f, applyEv fs ⟨.close tmp, f⟩ = fs := by
     intro f; cases f <;> simp [applyEv, failEffect, applyOp]
@@ -103,26 +117,25 @@ theorem tailRun_prefix {tgt tmp : P} (htt : tgt ≠ tmp) (k : Option Nat) (fs : 
     simp [okEv, hclose, applyEv, applyOp, hb, set_other _ _ htt]
   unfold tailRun at hp
   split at hp
-  · exact Or.inl (hloc _ (by simp [LocalTo, badEv, okEv]) hp)
-  · exact Or.inl (hloc _ (by simp [LocalTo, badEv, okEv]) hp)
+  · exact Or.inl (hloc _ (by simp [LocalTo, badEv, okEv, rmEv]) hp)
+  · exact Or.inl (hloc _ (by simp [LocalTo, badEv, okEv, rmEv]) hp)
   · exact hren _ (by simp [LocalTo, badEv]) hp
   · exact hren _ (by simp [LocalTo, okEv]) hp
 
-theorem writesRun_prefix {tgt tmp : P} (htt : tgt ≠ tmp) (part : Bytes) (chunks : List Bytes) :
+theorem writesRun_prefix {tgt tmp : P} (htt : tgt ≠ tmp) (part : Bytes) (after : List (Bytes × Bool)) (cl : Bool) (chunks : List Bytes) :
     ∀ (k : Option Nat) (fs : FS P) (b : Bytes), fs tmp = some b →
-      ∀ p, p <+: (writesRun tgt tmp part chunks k).evs →
+      ∀ p, p <+: (writesRun tgt tmp part after cl chunks k).evs →
         applyEvs fs p tgt = fs tgt ∨ applyEvs fs p tgt = some (b ++ chunks.flatten) := by
   induction chunks with
   | nil =>
     intro k fs b hb p hp
-    simpa using tailRun_prefix htt k fs b hb p hp
+    simpa using tailRun_prefix htt cl k fs b hb p hp
   | cons c cs ih =>
     intro k fs b hb p hp
     unfold writesRun at hp
     split at hp
     · left
-      exact applyEvs_local (prefix_local (l := [badEv (.write tmp part), okEv (.close tmp), okEv (.remove tmp)])
-        (by simp [LocalTo, badEv, okEv]) hp) fs htt
+      exact applyEvs_local (prefix_local (failedWrite_local tmp part after cl) hp) fs htt
     · simp only [Run.cons] at hp
       rcases prefix_cons_cases hp with rfl | ⟨p1, rfl, hp1⟩
       · exact Or.inl rfl
@@ -137,51 +150,52 @@ theorem writesRun_prefix {tgt tmp : P} (htt : tgt ≠ tmp) (part : Bytes) (chunk
 theorem saveRun_prefix {tgt tmp : P} (htt : tgt ≠ tmp) (chunks : List Bytes) (fault : Option Fault)
     (fs : FS P) (p : List (Ev P)) (hp : p <+: (saveRun tgt tmp chunks fault).evs) :
     applyEvs fs p tgt = fs tgt ∨ applyEvs fs p tgt = some chunks.flatten := by
-  have hopen : ∀ part k, p <+: ((writesRun tgt tmp part chunks k).cons (okEv (.openTrunc tmp))).evs →
+  have hopen : ∀ part after cl k, p <+: ((writesRun tgt tmp part after cl chunks k).cons (okEv (.openTrunc tmp))).evs →
       applyEvs fs p tgt = fs tgt ∨ applyEvs fs p tgt = some chunks.flatten := by
-    intro part k hp
+    intro part after cl k hp
     simp only [Run.cons] at hp
     rcases prefix_cons_cases hp with rfl | ⟨p1, rfl, hp1⟩
     · exact Or.inl rfl
     have h1 : applyEv fs (okEv (.openTrunc tmp)) tmp = some [] := by simp [okEv, applyEv, applyOp]
     have h2 : applyEv fs (okEv (.openTrunc tmp)) tgt = fs tgt :=
       applyEv_local (tmp := tmp) (by simp [LocalTo, okEv]) fs htt
-    have := writesRun_prefix htt part chunks k _ _ h1 p1 hp1
+    have := writesRun_prefix htt part after cl chunks k _ _ h1 p1 hp1
     rw [applyEvs_cons, h2] at *
     simpa using this
   unfold saveRun at hp
   split at hp
-  · exact hopen _ _ hp
+  · exact hopen _ _ _ _ hp
   · split at hp
     · left
-      exact applyEvs_local (prefix_local (l := [badEv (.openTrunc tmp), okEv (.remove tmp)])
-        (by simp [LocalTo, badEv, okEv]) hp) fs htt
-    · exact hopen _ _ hp
+      exact applyEvs_local (prefix_local (l := [badEv (.openTrunc tmp), rmEv tmp _])
+        (by simp [LocalTo, badEv, okEv, rmEv]) hp) fs htt
+    · exact hopen _ _ _ _ hp
 
 /-! ### final state of one save -/
 
 /-- how a call ended, as far as the two files are concerned -/
-def Final (fs fs' : FS P) (tgt tmp : P) (new : Bytes) (r : Run P) : Prop :=
-  fs' tmp = none ∧ (r.renamed = true → fs' tgt = some new) ∧ (r.renamed = false → fs' tgt = fs tgt)
+def Final (fs fs' : FS P) (tgt tmp : P) (new : Bytes) (r : Run P) (cl : Bool) : Prop :=
+  (cl = false → fs' tmp = none) ∧ (r.renamed = true → fs' tgt = some new) ∧ (r.renamed = false → fs' tgt = fs tgt)
 
-theorem tailRun_final {tgt tmp : P} (htt : tgt ≠ tmp) (k : Option Nat) (fs : FS P) (b : Bytes)
+theorem tailRun_final {tgt tmp : P} (htt : tgt ≠ tmp) (cl : Bool) (k : Option Nat) (fs : FS P) (b : Bytes)
     (hb : fs tmp = some b) :
-    Final fs (applyEvs fs (tailRun tgt tmp k).evs) tgt tmp b (tailRun tgt tmp k) := by
+    Final fs (applyEvs fs (tailRun tgt tmp cl k).evs) tgt tmp b (tailRun tgt tmp cl k) cl := by
   have htt' : tmp ≠ tgt := fun h => htt h.symm
   unfold Final tailRun
-  split <;> simp [applyEv, failEffect, applyOp, okEv, badEv, hb, set_other _ _ htt, set_other _ _ htt']
+  split <;> cases cl <;> simp [applyEv, failEffect, applyOp, okEv, badEv, rmEv, hb, set_other _ _ htt, set_other _ _ htt']
 
-theorem writesRun_final {tgt tmp : P} (htt : tgt ≠ tmp) (part : Bytes) (chunks : List Bytes) :
+theorem writesRun_final {tgt tmp : P} (htt : tgt ≠ tmp) (part : Bytes) (after : List (Bytes × Bool)) (cl : Bool) (chunks : List Bytes) :
     ∀ (k : Option Nat) (fs : FS P) (b : Bytes), fs tmp = some b →
-      Final fs (applyEvs fs (writesRun tgt tmp part chunks k).evs) tgt tmp (b ++ chunks.flatten)
-        (writesRun tgt tmp part chunks k) := by
+      Final fs (applyEvs fs (writesRun tgt tmp part after cl chunks k).evs) tgt tmp (b ++ chunks.flatten)
+        (writesRun tgt tmp part after cl chunks k) cl := by
   induction chunks with
-  | nil => intro k fs b hb; simpa [writesRun] using tailRun_final htt k fs b hb
+  | nil => intro k fs b hb; simpa [writesRun] using tailRun_final htt cl k fs b hb
   | cons c cs ih =>
     intro k fs b hb
     unfold writesRun
     split
-    · simp [Final, applyEv, failEffect, applyOp, okEv, badEv, hb, set_other _ _ htt]
+    · exact ⟨fun h => by subst h; exact failedWrite_final tmp part after fs, by simp,
+        fun _ => applyEvs_local (failedWrite_local tmp part after cl) fs htt⟩
     · have h1 : applyEv fs (okEv (.write tmp c)) tmp = some (b ++ c) := by
         simp [okEv, applyEv, applyOp, hb]
       have h2 : applyEv fs (okEv (.write tmp c)) tgt = fs tgt :=
@@ -194,31 +208,35 @@ theorem writesRun_final {tgt tmp : P} (htt : tgt ≠ tmp) (part : Bytes) (chunks
 
 theorem saveRun_final {tgt tmp : P} (htt : tgt ≠ tmp) (chunks : List Bytes) (fault : Option Fault) (fs : FS P) :
     Final fs (applyEvs fs (saveRun tgt tmp chunks fault).evs) tgt tmp chunks.flatten
-      (saveRun tgt tmp chunks fault) := by
-  have hopen : ∀ part k,
-      Final fs (applyEvs fs ((writesRun tgt tmp part chunks k).cons (okEv (.openTrunc tmp))).evs) tgt tmp
-        chunks.flatten ((writesRun tgt tmp part chunks k).cons (okEv (.openTrunc tmp))) := by
-    intro part k
+      (saveRun tgt tmp chunks fault) (match fault with
+        | some f => f.cleanup
+        | none => false) := by
+  have hopen : ∀ part after cl k,
+      Final fs (applyEvs fs ((writesRun tgt tmp part after cl chunks k).cons (okEv (.openTrunc tmp))).evs) tgt tmp
+        chunks.flatten ((writesRun tgt tmp part after cl chunks k).cons (okEv (.openTrunc tmp))) cl := by
+    intro part after cl k
     have h1 : applyEv fs (okEv (.openTrunc tmp)) tmp = some [] := by simp [okEv, applyEv, applyOp]
     have h2 : applyEv fs (okEv (.openTrunc tmp)) tgt = fs tgt :=
       applyEv_local (tmp := tmp) (by simp [LocalTo, okEv]) fs htt
-    have := writesRun_final htt part chunks k _ _ h1
+    have := writesRun_final htt part after cl chunks k _ _ h1
     unfold Final at *
     simp only [Run.cons, applyEvs_cons]
     rw [h2] at this
     simpa using this
   unfold saveRun
   split
-  · exact hopen _ _
-  · split
-    · simp [Final, applyEv, failEffect, applyOp, okEv, badEv, set_other _ _ htt]
-    · exact hopen _ _
+  · exact hopen _ _ _ _
+  · rename_i f
+    split
+    · cases hcl : f.cleanup <;>
+        simp [Final, applyEv, failEffect, applyOp, okEv, badEv, rmEv, hcl, set_other _ _ htt]
+    · exact hopen _ _ _ _
 
 /-- the fault-free run performs exactly `saveOps` -/
-theorem writesRun_none (tgt tmp : P) (part : Bytes) (chunks : List Bytes) :
-    (writesRun tgt tmp part chunks none).evs =
+theorem writesRun_none (tgt tmp : P) (part : Bytes) (after : List (Bytes × Bool)) (cl : Bool) (chunks : List Bytes) :
+    (writesRun tgt tmp part after cl chunks none).evs =
       (chunks.map (FsOp.write tmp) ++ [FsOp.close tmp, FsOp.rename tmp tgt, FsOp.remove tmp]).map okEv ∧
-    (writesRun tgt tmp part chunks none).renamed = true ∧ (writesRun tgt tmp part chunks none).raised = false := by
+    (writesRun tgt tmp part after cl chunks none).renamed = true ∧ (writesRun tgt tmp part after cl chunks none).raised = false := by
   induction chunks with
   | nil => simp [writesRun, tailRun]
   | cons c cs ih => simp [writesRun, Run.cons, tick, ih]
@@ -226,18 +244,18 @@ theorem writesRun_none (tgt tmp : P) (part : Bytes) (chunks : List Bytes) :
 theorem saveRun_none (tgt tmp : P) (chunks : List Bytes) :
     (saveRun tgt tmp chunks none).evs = (saveOps tgt tmp chunks).map okEv ∧
     (saveRun tgt tmp chunks none).renamed = true ∧ (saveRun tgt tmp chunks none).raised = false := by
-  have := writesRun_none tgt tmp [] chunks
+  have := writesRun_none tgt tmp [] [] false chunks
   simp [saveRun, Run.cons, saveOps, this]
 
 /-- a call that did not get as far as the rename raised -/
-theorem tailRun_not_renamed (tgt tmp : P) (k : Option Nat) :
-    (tailRun tgt tmp k).renamed = false → (tailRun tgt tmp k).raised = true := by
+theorem tailRun_not_renamed (tgt tmp : P) (cl : Bool) (k : Option Nat) :
+    (tailRun tgt tmp cl k).renamed = false → (tailRun tgt tmp cl k).raised = true := by
   unfold tailRun; split <;> simp
 
-theorem writesRun_not_renamed (tgt tmp : P) (part : Bytes) (chunks : List Bytes) (k : Option Nat) :
-    (writesRun tgt tmp part chunks k).renamed = false → (writesRun tgt tmp part chunks k).raised = true := by
+theorem writesRun_not_renamed (tgt tmp : P) (part : Bytes) (after : List (Bytes × Bool)) (cl : Bool) (chunks : List Bytes) (k : Option Nat) :
+    (writesRun tgt tmp part after cl chunks k).renamed = false → (writesRun tgt tmp part after cl chunks k).raised = true := by
   induction chunks generalizing k with
-  | nil => simpa [writesRun] using tailRun_not_renamed tgt tmp k
+  | nil => simpa [writesRun] using tailRun_not_renamed tgt tmp cl k
   | cons c cs ih =>
     unfold writesRun
     split
@@ -248,10 +266,10 @@ theorem saveRun_not_renamed (tgt tmp : P) (chunks : List Bytes) (fault : Option 
     (saveRun tgt tmp chunks fault).renamed = false → (saveRun tgt tmp chunks fault).raised = true := by
   unfold saveRun
   split
-  · simpa [Run.cons] using writesRun_not_renamed tgt tmp _ chunks _
+  · simpa [Run.cons] using writesRun_not_renamed tgt tmp _ _ _ chunks _
   · split
     · simp
-    · simpa [Run.cons] using writesRun_not_renamed tgt tmp _ chunks _
+    · simpa [Run.cons] using writesRun_not_renamed tgt tmp _ _ _ chunks _
 
 /-- every run begins with the `open` of the temporary file: a save that runs touches the disk -/
 theorem saveRun_evs_ne_nil (tgt tmp : P) (chunks : List Bytes) (fault : Option Fault) :
